@@ -561,3 +561,24 @@ class ValueSet:
 
     def __init__(self, items):
         self.items = list(items)
+
+
+class GroupDict:
+    """collections.defaultdict(list) filled by `for t in seq: d[key(t)].append(t)`: groups of a sequence by a key."""
+
+    def __init__(self):
+        self.src = None      # SymSeq
+        self.key = None      # key term, mentioning self.const
+        self.const = None    # the index constant the key term is stated over
+        self.fresh = True
+
+
+class GroupSlot:
+    def __init__(self, d, key):
+        self.d = d
+        self.key = key
+
+
+class GroupValues:
+    def __init__(self, d):
+        self.d = d
